@@ -530,11 +530,16 @@ class Pipeline:
         result_from_cache = False
         if use_cache:
             assert cache is not None
-            cache_key = compute_cache_key(
-                func.output_name,
-                self._func_defaults(func) | flat_scope_kwargs | func._bound,
-                root_args,
-            )
+            if any(name in self.output_to_func for name in flat_scope_kwargs):
+                # An intermediate result was provided, the output is then
+                # not determined by the root arguments and should not be cached.
+                cache_key = None
+            else:
+                cache_key = compute_cache_key(
+                    func.output_name,
+                    self._func_defaults(func) | flat_scope_kwargs | func._bound,
+                    root_args,
+                )
             return_now, result_from_cache = get_result_from_cache(
                 func,
                 cache,
